@@ -10,6 +10,7 @@ From ClapModel Require Import ParseProofs.Actions ParseProofs.Unparse ParseProof
 From ClapModel Require Import Base.Utf8 Lex.OsStrExtModel Lex.OsStrExtProofs ParseProofs.UnparseLift.
 From ClapModel Require Import ParseProofs.UnparseX ParseProofs.UnparseXProofs ParseProofs.UnparseXTree ParseProofs.UnparseXExamples.
 From ClapModel Require Import ParseProofs.Globals ParseProofs.UnparseGlobals ParseProofs.Spelling ParseProofs.UnparsePending ParseProofs.UnparseBridge.
+From ClapModel Require Import ParseProofs.Escape ParseProofs.UnparseXTrail ParseProofs.UnparseYTree ParseProofs.UnparseYExamples.
 From Coq Require Import ZArith Sorting.Sorted Sorting.Permutation List.
 Import ListNotations.
 Open Scope N_scope.
@@ -721,3 +722,108 @@ Theorem C02_bridge_settings_partial : forall c,
   is_set s_allow_missing_pos (pre_build c) = is_set s_allow_missing_pos c.
 Proof. exact bridge_settings. Qed.
 Print Assumptions C02_bridge_settings_partial.
+
+(** * Fourth pass.
+    (1) TAILS FOR THE LIFTED CLASS; [last(true)] AND [trailing_var_arg] POSITIONALS (ParseProofs/UnparseXTrail.v, UnparseYTree.v).
+    [convx] (the class of all [_x] theorems above) now admits positionals with [last(true)] and [trailing_var_arg], and a multiple
+    positional below the highest index when the last positional is [last(true)] (the parser's own test [low_index_mults_any], C05);
+    a run of values BEFORE [--] is never for a [last(true)] / [trailing_var_arg] positional ([posx_ok]).
+    Trees [invy] = items, then nothing | subcommand + tree | [--] + values ([YTrail]) | the run of a [trailing_var_arg]
+    positional ([YTva], rendered without [--]).  After [--] every token -- whatever it looks like -- goes to the positional the
+    CORRECTED counter points at ([sink_index], C05: the highest positional when there is a [last(true)] one); a positional taking
+    several values takes all that remain.  A [trailing_var_arg] run: the first value is an ordinary value token, all later tokens are
+    raw values of the same occurrence; it denotes what [--] followed by the same values denotes. *)
+Theorem C02_unparse_after_escape_x : forall c, convx c = true ->
+  forall (vs : list bytes) pos pst vaf st, wfx_trail c pos vs = true -> pend_inv c PSValuesDone st ->
+  parse_loop c vs (mkL pst pos vaf true) st = (do s' <- trailx_apply c pos vs st; ROk (LDone s')).
+Proof. exact loop_trail_x. Qed.
+Print Assumptions C02_unparse_after_escape_x.
+
+Theorem C02_unparse_tva_run : forall c, convx c = true ->
+  forall (vs : list bytes) pos vaf st, wfx_tva c pos vs = true -> pend_inv c PSValuesDone st ->
+  parse_loop c vs (mkL PSValuesDone pos vaf false) st = (do s' <- trailx_apply c pos vs st; ROk (LDone s')).
+Proof. exact loop_tva. Qed.
+Print Assumptions C02_unparse_tva_run.
+
+Theorem C02_unparse_tree_y : forall i c f, valid_tree (S f) c = true -> wfy_inv c i = true ->
+  get_matches_with (S f) c (render_invy i) ps_new = run_invy c i.
+Proof. exact gmw_inv_y. Qed.
+Print Assumptions C02_unparse_tree_y.
+
+Theorem C02_unparse_y : forall c0 bin i, is_set s_no_binary_name c0 = false ->
+  valid (with_bin c0 bin) = true -> wfy_inv (build_self (with_bin c0 bin)) i = true ->
+  parse_top c0 (bin :: render_invy i) =
+  finish_outcome (with_bin c0 bin) (run_invy (build_self (with_bin c0 bin)) i).
+Proof. exact parse_top_inv_y. Qed.
+Print Assumptions C02_unparse_y.
+
+Theorem C02_unparse_denote_y : forall c0 bin i st, is_set s_no_binary_name c0 = false ->
+  valid (with_bin c0 bin) = true -> wfy_inv (build_self (with_bin c0 bin)) i = true ->
+  no_globals (build_recursive (S (S (depth (build_self (with_bin c0 bin))))) (with_bin c0 bin)) = true ->
+  run_invy (build_self (with_bin c0 bin)) i = ROk st ->
+  parse_top c0 (bin :: render_invy i) = OOk (into_inner (mt st)).
+Proof. exact parse_top_denote_y. Qed.
+Print Assumptions C02_unparse_denote_y.
+
+Theorem C02_unparse_globals_y : forall c0 bin i st, is_set s_no_binary_name c0 = false ->
+  valid (with_bin c0 bin) = true -> wfy_inv (build_self (with_bin c0 bin)) i = true ->
+  run_invy (build_self (with_bin c0 bin)) i = ROk st ->
+  parse_top c0 (bin :: render_invy i) =
+  OOk (ins_levels (merged_map (with_bin c0 bin) (into_inner (mt st))) (into_inner (mt st))).
+Proof. exact parse_top_merged_y. Qed.
+Print Assumptions C02_unparse_globals_y.
+
+Theorem C02_conservation_tree_y : forall i c f st, valid_tree (S f) c = true -> wfy_inv c i = true ->
+  get_matches_with (S f) c (render_invy i) ps_new = ROk st ->
+  forall a, In a (c_args c) ->
+    (forall gs, denote_os c (a_id a) (invy_occs c i) = Some gs -> groups_of (a_id a) (mt st) = Some gs)
+    /\ (forall e, fm_get (a_id a) (mt_args (mt st)) = Some e -> m_source e = Some SCmdLine ->
+          denote_os c (a_id a) (invy_occs c i) = Some (m_raw e)).
+Proof. exact conservation_inv_y. Qed.
+Print Assumptions C02_conservation_tree_y.
+
+Theorem C02_indices_tree_y : forall i c f st, valid_tree (S f) c = true -> wfy_inv c i = true ->
+  get_matches_with (S f) c (render_invy i) ps_new = ROk st ->
+  forall a ix, In a (c_args c) -> denote_idx_os c (a_id a) (invy_occs c i) = Some ix ->
+  idx_of (a_id a) (mt st) = Some ix.
+Proof. exact indices_inv_y. Qed.
+Print Assumptions C02_indices_tree_y.
+
+(** the trees of the earlier passes are the trees without a [trailing_var_arg] run; both earlier classes are contained,
+    with the same rendering and the same meaning (in the old class the corrected counter is the counter) *)
+Theorem C02_class_lifted_tails :
+  (forall i, render_invy (of_inv i) = render_inv i) /\
+  (forall i c, wf_inv c i = true -> wfy_inv c (of_inv i) = true /\ run_invy c (of_inv i) = run_inv c i) /\
+  (forall i c, wfx_inv c i = true -> wfy_inv c (of_inv i) = true /\ run_invy c (of_inv i) = run_inv c i).
+Proof. exact (conj render_of_inv (conj wf_inv_wfy_inv wfx_inv_wfy_inv)). Qed.
+Print Assumptions C02_class_lifted_tails.
+
+(** Non-vacuity: [prog -v --opt <o> <files>... [-- <cmd>...]] ([cmd] last(true) with terminator [;], [files] a multiple
+    positional below it): [-v A B --opt X -- -a -- run] and [-v -- R S] (the counter jumps over the absent [files]). *)
+Theorem C02_unparse_y_nonvacuous :
+  (is_set s_no_binary_name YEx.c0 = false /\ valid (with_bin YEx.c0 YEx.bin) = true /\ wfy_inv YEx.c YEx.yinv = true /\ wfy_inv YEx.c YEx.yinv2 = true /\
+   convx YEx.c = true /\ conv YEx.c = false /\ low_index_multiple YEx.c = true /\
+   no_globals (build_recursive (S (S (depth YEx.c))) (with_bin YEx.c0 YEx.bin)) = true /\
+   render_invy YEx.yinv = [[45; 118]; [65]; [66]; [45; 45; 111; 112; 116]; [88]; [45; 45]; [45; 97]; [45; 45]; [114; 117; 110]] /\
+   render_invy YEx.yinv2 = [[45; 118]; [45; 45]; [82]; [83]]) /\
+  exists m m2,
+    parse_top YEx.c0 (YEx.bin :: render_invy YEx.yinv) = OOk m /\
+    YEx.raw_of [102] m = Some [[[65]; [66]]] /\ YEx.raw_of [99] m = Some [[[45; 97]; [45; 45]; [114; 117; 110]]] /\ YEx.raw_of [111] m = Some [[[88]]] /\
+    YEx.idx_of_m [102] m = Some [2; 3] /\ YEx.idx_of_m [99] m = Some [6; 7; 8] /\
+    parse_top YEx.c0 (YEx.bin :: render_invy YEx.yinv2) = OOk m2 /\
+    YEx.raw_of [102] m2 = None /\ YEx.raw_of [99] m2 = Some [[[82]; [83]]] /\ YEx.idx_of_m [99] m2 = Some [2; 3].
+Proof. split; [exact YEx.ex_hyps|exact YEx.ex_parse]. Qed.
+Print Assumptions C02_unparse_y_nonvacuous.
+
+(** Non-vacuity: [prog -v <cmd> <args>...] with [args] trailing_var_arg: [-v C a1 --x -v -- z] *)
+Theorem C02_unparse_tva_nonvacuous :
+  (is_set s_no_binary_name YEx.t0 = false /\ valid (with_bin YEx.t0 YEx.bin) = true /\ wfy_inv YEx.tc YEx.tinv = true /\
+   convx YEx.tc = true /\ conv YEx.tc = false /\
+   no_globals (build_recursive (S (S (depth YEx.tc))) (with_bin YEx.t0 YEx.bin)) = true /\
+   render_invy YEx.tinv = [[45; 118]; [67]; [97; 49]; [45; 45; 120]; [45; 118]; [45; 45]; [122]]) /\
+  exists m,
+    parse_top YEx.t0 (YEx.bin :: render_invy YEx.tinv) = OOk m /\
+    YEx.raw_of [99] m = Some [[[67]]] /\ YEx.raw_of [97] m = Some [[[97; 49]; [45; 45; 120]; [45; 118]; [45; 45]; [122]]] /\
+    YEx.raw_of [118] m = Some [[[49]]] /\ YEx.idx_of_m [97] m = Some [3; 4; 5; 6; 7].
+Proof. split; [exact YEx.ex_tva_hyps|exact YEx.ex_tva_parse]. Qed.
+Print Assumptions C02_unparse_tva_nonvacuous.
